@@ -135,6 +135,8 @@ class Exc:
         self.args, self.post, self.fields, self.when = tuple(args), tuple(post), fields or {}, when
 
 
+CUT = ClassVal("VerificationCut", "pyvc", [I.builtin_exc("BaseException")], {}, qualname="pyvc.VerificationCut")
+CUT.is_exc = True
 CONTRACTS = {}
 
 
@@ -584,6 +586,8 @@ class Verifier:
             return
         if out[0] == "raise":
             exc = out[1]
+            if exc.cls is CUT:
+                return          # path deliberately ended by `cut_after`: nothing is claimed beyond that call
             entry = self.match_raises(cls, exc)
             cname = exc.cls.name
             if entry is None:
@@ -726,8 +730,14 @@ class Verifier:
             for e in cls.ensures:
                 s3.assume(self.eval_clause(s3, e, env3))
             outcomes.append((s3, res))
+        cut = getattr(caller, "cut_after", None) if caller is not None else None
         for o in outcomes:
-            yield o
+            if cut and cls.qualname.split(".")[-1] == cut and not isinstance(o[1], Raise):
+                # the caller's contract covers the function only up to this call: end the path here
+                o[0].trace.append("  (verification cut after %s)" % cut)
+                yield o[0], Raise(I.make_exc(o[0], CUT))
+            else:
+                yield o
 
     def havoc_ghost(self, st, cls):
         names = cls.ghost_frame if cls.ghost_frame is not None else [n for n in self.ghost_schema if n not in GHOST_LOCAL]
